@@ -190,19 +190,20 @@ handler!(get_status(state: Extension<Arc<GlobalState>>) -> impl IntoResponse {
 });
 
 handler!(get_alive(state: Extension<Arc<GlobalState>>) -> impl IntoResponse {
+    // take the references first: the registry lock must not be held while waiting for a context lock
+    let alive: Vec<_> = state
+        .contexts
+        .alive
+        .lock()
+        .await
+        .values()
+        .filter_map(Weak::upgrade)
+        .collect();
     Json(
-        futures::stream::iter(
-            state
-                .contexts
-                .alive
-                .lock()
-                .await
-                .values()
-                .filter_map(Weak::upgrade),
-        )
-        .then(|x| async move { x.read().await.props().clone() })
-        .collect::<Vec<_>>()
-        .await,
+        futures::stream::iter(alive)
+            .then(|x| async move { x.read().await.props().clone() })
+            .collect::<Vec<_>>()
+            .await,
     )
 });
 
